@@ -123,6 +123,19 @@ def correspondence(ctx):
     GC.simple_layout(s, big)
     s.meta = {"big-block": len(big[1].enc())}
     scns.append(s)
+    # wide transactions: more inputs / outputs than any plausible batch size (the index columns must keep counting)
+    for coin, nout, nin in (("bitcoin", 2049, 3), ("litecoin", 5000, 2), ("bitcoin", 4, 2049), ("dogecoin", 4097, 4097 if ctx.thorough() else 5)):
+        wb = GC.gen_chain(r, coin, 3, max_txs=1, max_io=1, segwit=False, auxpow_mix=False)
+        wb[1].txs.append(K.Tx([(GC.rb(r, 32), j, b"\x01\x01", 0xffffffff) for j in range(nin)], [(j, GC.spk(r, coin, "p2pkh") if j % 5 else b"\x6a\x01\x41") for j in range(nout)]))
+        prev = wb[0].hash()
+        for b in wb[1:]:
+            b.prev = prev
+            b.merkle_root = None
+            prev = b.hash()
+        s = K.Scenario(coin=coin, callback="csvdump")
+        GC.simple_layout(s, wb)
+        s.meta = {"wide-tx": [nin, nout]}
+        scns.append(s)
     bb.check(ctx, "csvdump-chains", scns, CMP, nontrivial=lambda s, m: len(m["delivered"]) > 1)
 
 
